@@ -142,7 +142,8 @@ def run_programs(chk, programs):
                 if all(e["msg"].startswith("generate:") for e in res["errors"]):
                     skipped += 1  # the backend refuses this program (e.g. generics in Go): outside "supported programs"
                     continue
-                raise ToolError(f"program not accepted by the parser: {res['errors']}\n{src}")
+                chk.refused(lang, f"{lang}: program not accepted: {str(res['errors'])[:200]}", {"nodes": nodes, "edges": edges})
+                continue
             try:
                 count, start, mainpos = positions(lang, res["outputs"][""], nodes2, items)
             except Exception as e:  # extractor cannot read the file: C10's business, not an ordering verdict
